@@ -20,6 +20,13 @@ Clause(e) ==
     [] e.op = "valid_beat_duration" ->
          IF ~e.ok THEN (IF e.err = "hang" THEN "terminates" ELSE "beat-unit-validity")
          ELSE IF e.out = ValidUnit(e.in.u) THEN "ok" ELSE "beat-unit-validity"
+    \* beat units beyond 32 bits, written 2^k + d with k >= 31 and 0 < |d| <= 8 or d = 0: a power of two exactly when d = 0
+    [] e.op = "valid_beat_duration_big" ->
+         IF ~e.ok THEN (IF e.err = "hang" THEN "terminates" ELSE "beat-unit-validity")
+         ELSE IF e.out = (e.in.d = 0) THEN "ok" ELSE "beat-unit-validity"
+    [] e.op = "is_valid_big" ->
+         IF ~e.ok THEN (IF e.err = "hang" THEN "terminates" ELSE "meter-validity")
+         ELSE IF e.out = (e.in.c > 0 /\ e.in.d = 0) THEN "ok" ELSE "meter-validity"
     [] e.op = "is_valid" ->
          IF ~e.ok THEN (IF e.err = "hang" THEN "terminates" ELSE "meter-validity")
          ELSE IF e.out = ValidMeter(e.in.c, e.in.u) THEN "ok" ELSE "meter-validity"
